@@ -392,7 +392,7 @@ class RefSelectorList:
         return True
 
     def replace(self, i, ident):
-        if ident is None or not 0 <= i < len(self.entries):
+        if ident is None or not -len(self.entries) <= i < len(self.entries):  # (a negative index counts from the end)
             return False
         self.entries[i] = ident
         return True
